@@ -24,6 +24,7 @@ TARGETS = ["IbicusModel.Props.C19", "IbicusModel.Lemmas.GenMetrics", "IbicusMode
 GEN = ["Metrics"]  # tier A: dispatch, spell expression, per-location formulas of metrics.py (translator/extract_metrics.py)
 # calendar tier A: day_of_year / month / year / season / inferred dates / yearly means as data (translator/extract_calendar.py)
 TARGETS += ["IbicusModel.Lemmas.GenCalendarFns"]
+TARGETS += ["IbicusModel.Lemmas.GenMetrics2", "IbicusModel.Props.C19Gen2"]  # tier A part 2: clusters, spatial extent, quantile by locality, annual loop nest
 GEN += ["CalendarFns"]
 
 SEASON_CODE = {"Winter": 0, "Spring": 1, "Summer": 2, "Autumn": 3}
